@@ -85,6 +85,199 @@ theorem wrap_min (W : Nat) (seq : Bytes) (hs : seq ≠ []) :
   · rw [Nat.min_eq_left (by omega)]
 
 
+
+/-! ### np.delete -/
+
+theorem delete_keep (idxs : List Nat) (i : Nat) (x y : Bytes)
+    (h : ∀ k, i ≤ k → k < i + x.length → k ∉ idxs) :
+    deleteIdxFrom idxs i (x ++ y) = x ++ deleteIdxFrom idxs (i + x.length) y := by
+  induction x generalizing i with
+  | nil => simp
+  | cons c cs ih =>
+    have hi : idxs.contains i = false := by
+      have := h i (Nat.le_refl _) (by simp)
+      simpa using this
+    simp only [List.cons_append, deleteIdxFrom, hi, Bool.false_eq_true, if_false, List.length_cons]
+    have h' : ∀ k, i + 1 ≤ k → k < i + 1 + cs.length → k ∉ idxs := by
+      intro k hk1 hk2
+      exact h k (by omega) (by rw [List.length_cons]; omega)
+    rw [ih (i + 1) h']
+    have : i + 1 + cs.length = i + (cs.length + 1) := by omega
+    rw [this]
+
+theorem delete_drop (idxs : List Nat) (i : Nat) (c : Nat) (y : Bytes) (h : i ∈ idxs) :
+    deleteIdxFrom idxs i (c :: y) = deleteIdxFrom idxs (i + 1) y := by
+  have hi : idxs.contains i = true := List.contains_iff_mem.mpr h
+  simp only [deleteIdxFrom, hi, if_true]
+
+theorem delete_shift (idxs idxs' : List Nat) (s : Nat) (i : Nat) (y : Bytes)
+    (h : ∀ k, i ≤ k → (k + s ∈ idxs ↔ k ∈ idxs')) :
+    deleteIdxFrom idxs (i + s) y = deleteIdxFrom idxs' i y := by
+  induction y generalizing i with
+  | nil => rfl
+  | cons c cs ih =>
+    have hc : idxs.contains (i + s) = idxs'.contains i := by
+      have := h i (Nat.le_refl _)
+      cases h1 : idxs.contains (i + s) <;> cases h2 : idxs'.contains i <;> simp_all
+    simp only [deleteIdxFrom, hc]
+    have := ih (i + 1) (fun k hk => h k (by omega))
+    rw [show i + 1 + s = i + s + 1 by omega] at this
+    rw [this]
+
+theorem delete_none (y : Bytes) : deleteIdx y [] = y := by
+  unfold deleteIdx
+  have : ∀ i, deleteIdxFrom [] i y = y := by
+    induction y with
+    | nil => intro i; rfl
+    | cons c cs ih => intro i; simp [deleteIdxFrom, ih]
+  exact this 0
+
+/-! ### interval fetch inside one wrapped block -/
+
+/-- the code's arithmetic on a block that starts at byte 0 -/
+def fetchCore (W : Nat) (T : Bytes) (a b : Nat) : Bytes :=
+  let sa := a / W * (W + 1) + a % W
+  let sb := b / W * (W + 1) + b % W
+  deleteIdx ((T.drop sa).take (sb - sa))
+    ((List.range (b / W - a / W)).map (fun j => (W + 1) * (j + 1) - 1 - a % W))
+
+theorem div_mod_shift (W x : Nat) (hW : 0 < W) (h : W ≤ x) :
+    x / W = (x - W) / W + 1 ∧ x % W = (x - W) % W := by
+  obtain ⟨k, rfl⟩ : ∃ k, x = k + W := ⟨x - W, by omega⟩
+  rw [Nat.add_sub_cancel, Nat.add_div_right _ hW, Nat.add_mod_right]
+  exact ⟨rfl, rfl⟩
+
+theorem drop_block (A R : Bytes) (x : Nat) : (A ++ 10 :: R).drop (x + (A.length + 1)) = R.drop x := by
+  rw [show x + (A.length + 1) = A.length + (x + 1) by omega, ← List.drop_drop, List.drop_left]
+  simp
+
+/-- both ends beyond the first line: the first line can be peeled off -/
+theorem fetchCore_peel (W : Nat) (hW : 0 < W) (A T' : Bytes) (hA : A.length = W) (a b : Nat)
+    (ha : W ≤ a) (hab : a ≤ b) :
+    fetchCore W (A ++ 10 :: T') a b = fetchCore W T' (a - W) (b - W) := by
+  obtain ⟨ha1, ha2⟩ := div_mod_shift W a hW ha
+  obtain ⟨hb1, hb2⟩ := div_mod_shift W b hW (by omega)
+  unfold fetchCore
+  simp only [ha1, ha2, hb1, hb2]
+  have e1 : ∀ q r : Nat, (q + 1) * (W + 1) + r = (q * (W + 1) + r) + (A.length + 1) := by
+    intro q r
+    have : (q + 1) * (W + 1) = q * (W + 1) + (W + 1) := Nat.succ_mul _ _
+    omega
+  rw [e1, e1, drop_block]
+  have e5 : ∀ x y : Nat, x + (A.length + 1) - (y + (A.length + 1)) = x - y := by intros; omega
+  have e6 : ∀ x y : Nat, x + 1 - (y + 1) = x - y := by intros; omega
+  rw [e5, e6]
+
+/-- both ends inside the first line -/
+theorem fetchCore_inside (W : Nat) (A R : Bytes) (a b : Nat) (hab : a ≤ b) (hbW : b < W)
+    (hb : b ≤ A.length) :
+    fetchCore W (A ++ R) a b = (A.drop a).take (b - a) := by
+  have ha1 : a / W = 0 := Nat.div_eq_of_lt (by omega)
+  have ha2 : a % W = a := Nat.mod_eq_of_lt (by omega)
+  have hb1 : b / W = 0 := Nat.div_eq_of_lt hbW
+  have hb2 : b % W = b := Nat.mod_eq_of_lt hbW
+  unfold fetchCore
+  simp only [ha1, ha2, hb1, hb2, Nat.zero_mul, Nat.zero_add, Nat.sub_self, List.range_zero, List.map_nil,
+    delete_none]
+  rw [List.drop_append_of_le_length (by omega), List.take_append_of_le_length (by simp; omega)]
+
+theorem fetchCore_zero (W : Nat) (T : Bytes) (b : Nat) :
+    fetchCore W T 0 b = deleteIdx (T.take (b / W * (W + 1) + b % W))
+      ((List.range (b / W)).map (fun j => (W + 1) * (j + 1) - 1)) := by
+  unfold fetchCore
+  simp
+
+/-- the interval starts in the first line and leaves it -/
+theorem fetchCore_cross (W : Nat) (hW : 0 < W) (A T' : Bytes) (hA : A.length = W) (a b : Nat)
+    (ha : a < W) (hb : W ≤ b) :
+    fetchCore W (A ++ 10 :: T') a b = A.drop a ++ fetchCore W T' 0 (b - W) := by
+  have ha1 : a / W = 0 := Nat.div_eq_of_lt ha
+  have ha2 : a % W = a := Nat.mod_eq_of_lt ha
+  obtain ⟨hb1, hb2⟩ := div_mod_shift W b hW hb
+  rw [fetchCore_zero]
+  obtain ⟨q, hq⟩ : ∃ q, q = (b - W) / W := ⟨_, rfl⟩
+  obtain ⟨sb', hsb'⟩ : ∃ sb', sb' = q * (W + 1) + (b - W) % W := ⟨_, rfl⟩
+  unfold fetchCore
+  simp only [ha1, ha2, hb1, hb2, Nat.zero_mul, Nat.zero_add, Nat.sub_zero]
+  rw [← hq, ← hsb']
+  have e2 : (q + 1) * (W + 1) + (b - W) % W - a = (W - a) + (1 + sb') := by
+    have : (q + 1) * (W + 1) = q * (W + 1) + (W + 1) := Nat.succ_mul _ _
+    omega
+  have hx : (A.drop a).length = W - a := by simp; omega
+  rw [e2, List.drop_append_of_le_length (by omega), List.take_append, hx]
+  have e3 : W - a + (1 + sb') - (W - a) = 1 + sb' := by omega
+  rw [List.take_of_length_le (by omega), e3]
+  have e4 : (10 :: T').take (1 + sb') = 10 :: T'.take sb' := by
+    rw [Nat.add_comm]; rfl
+  rw [e4, List.range_succ_eq_map, List.map_cons, List.map_map]
+  unfold deleteIdx
+  have hm : ∀ j : Nat, (W + 1) * (j + 1 + 1) - 1 - a = (W + 1) * (j + 1) - 1 + (W - a + 1) := by
+    intro j
+    have h1 : (W + 1) * (j + 1 + 1) = (W + 1) * (j + 1) + (W + 1) := Nat.mul_succ _ _
+    have h2 : 0 < (W + 1) * (j + 1) := Nat.mul_pos (by omega) (by omega)
+    omega
+  rw [delete_keep _ 0 _ _ (by
+    intro k _ hk
+    rw [hx] at hk
+    simp only [List.mem_cons, List.mem_map, Function.comp, not_or, not_exists, not_and]
+    refine ⟨by omega, ?_⟩
+    intro j _
+    have := hm j
+    simp only [Nat.succ_eq_add_one]
+    omega)]
+  rw [hx, Nat.zero_add, delete_drop _ _ _ _ (by simp)]
+  rw [show 0 + (W - a) + 1 = 0 + (W - a + 1) by omega]
+  rw [delete_shift _ ((List.range q).map (fun j => (W + 1) * (j + 1) - 1)) (W - a + 1) 0 _ (by
+    intro k _
+    simp only [List.mem_cons, List.mem_map, Function.comp, Nat.succ_eq_add_one]
+    constructor
+    · intro h
+      rcases h with h | ⟨j, hj, h⟩
+      · omega
+      · exact ⟨j, hj, by have := hm j; omega⟩
+    · intro ⟨j, hj, h⟩
+      right
+      exact ⟨j, hj, by have := hm j; omega⟩)]
+
+theorem fetchCore_spec (W : Nat) (hW : 0 < W) (seq post : Bytes) (a b : Nat) (hab : a ≤ b)
+    (hb : b ≤ seq.length) :
+    fetchCore W (wrapBytes W seq ++ post) a b = (seq.drop a).take (b - a) := by
+  induction hn : seq.length using Nat.strongRecOn generalizing seq a b with
+  | _ n ih =>
+    by_cases hs : seq = []
+    · subst hs
+      simp at hb; subst hb
+      have : a = 0 := by omega
+      subst this
+      rw [fetchCore_zero]; simp [delete_none]
+    · by_cases haW : W ≤ a
+      · have hl : (seq.take W).length = W := by simp; omega
+        rw [wrap_cons W hW seq hs, List.append_assoc, List.cons_append,
+          fetchCore_peel W hW _ _ hl a b haW hab,
+          ih (seq.length - W) (by omega) (seq.drop W) (a - W) (b - W) (by omega) (by simp; omega) (by simp)]
+        rw [List.drop_drop]
+        have e7 : b - W - (a - W) = b - a := by omega
+        have e8 : W + (a - W) = a := by omega
+        rw [e7, e8]
+      · by_cases hbW : b < W
+        · rw [wrap_cons W hW seq hs, List.append_assoc,
+            fetchCore_inside W _ _ a b hab hbW (by simp; omega)]
+          rw [List.drop_take, List.take_take]
+          congr 1; omega
+        · have hl : (seq.take W).length = W := by simp; omega
+          rw [wrap_cons W hW seq hs, List.append_assoc, List.cons_append,
+            fetchCore_cross W hW _ _ hl a b (by omega) (by omega),
+            ih (seq.length - W) (by omega) (seq.drop W) 0 (b - W) (by omega) (by simp; omega) (by simp)]
+          simp only [List.drop_zero, Nat.sub_zero]
+          rw [List.drop_take]
+          have h1 : (seq.drop a).take (b - a) = (seq.drop a).take ((W - a) + (b - W)) := by
+            congr 1; omega
+          rw [h1, List.take_add]
+          congr 2
+          rw [List.drop_drop]
+          congr 1; omega
+
+
 /-- **C17.contig_lengths**: the lengths reported are the index's sequence-length column -/
 theorem contig_lengths_rows (idx : List IdxRow) :
     contigLengths idx = idx.map (fun r => (firstWord r.name, r.rlen)) := rfl
